@@ -214,9 +214,10 @@ def worker(args) -> Dict[str, Any]:
     models = [m for m in c11.model_list(chk, n_mmg) if m[2]]
     mine = [m for idx, m in enumerate(models) if idx % n_shards == shard]
     for idx, (name, text, _) in enumerate(mine):
-        if time.time() > deadline:
-            chk.count("models_skipped_for_budget", len(mine) - idx)
-            break
+        limit = chk.t0 + 0.8 * budget if text is None else deadline
+        if time.time() > limit:
+            chk.count("models_skipped_for_budget")
+            continue
         if text is None:
             index = int(name.rsplit("/", 1)[1])
             m = jschema.generate_model(chk.rng("model", index), index)
@@ -224,7 +225,7 @@ def worker(args) -> Dict[str, Any]:
             for k, v in m.features.items():
                 chk.hist("mmg_features", k, v)
         try:
-            check_model(chk, name, text, chk.rng("inst", name), n_instances, deadline)
+            check_model(chk, name, text, chk.rng("inst", name), n_instances, limit)
         except RecursionError:
             chk.count("models_recursion_skipped")
     return chk.export()
@@ -245,10 +246,10 @@ def main(argv) -> int:
                 chk.merge(job.result())
             except Exception as err:
                 chk.harness_error(f"worker failed: {err!r}\n{traceback.format_exc()[-1500:]}")
-    chk.require_min("valid_documents", chk.pick(150, 3000))
-    chk.require_min("constraint_twins_judged", chk.pick(300, 6000))
-    chk.require_min("constraint_twins_pure", chk.pick(200, 4000))
-    chk.require_min("structural_twins_judged", chk.pick(1000, 20000))
+    chk.require_min("valid_documents", chk.pick(100, 2000))
+    chk.require_min("constraint_twins_judged", chk.pick(200, 5000))
+    chk.require_min("constraint_twins_pure", chk.pick(150, 4000))
+    chk.require_min("structural_twins_judged", chk.pick(800, 20000))
     chk.assume("the expected constraints are those in the documented forms: len(self.p) <op> k in both operand orders, pattern-function calls (single or and-joined), optionally guarded on the *same* property; a guard on another property makes the constraint conditional and is not expected to be enforced")
     chk.assume("a twin is judged only after Python itself evaluates the targeted invariant to not-True on it")
     chk.assume("documents the schema already rejects are C11's business and are skipped here")
